@@ -267,6 +267,10 @@ pub fn compare(rt: &Runtime<NoCtx>, drv: &mut Driver, what: &str, src: &str, sex
             }
             format!("err:{mc}")
         }
+        (Outcome::Ok, "ok unsolved") => {
+            rep.mismatch("the store the inference model leaves behind for an accepted script has no solution by defaulting (premise of infer_sound_partial)", input);
+            "ok-unsolved".into()
+        }
         (Outcome::Ok, m) => {
             rep.mismatch(&format!("the type checker accepts a script the inference model rejects (`{m}`)"), input);
             "model-rejects-only".into()
